@@ -31,8 +31,9 @@ ASSUMPTIONS = ["network, clock, executor and event loop are simulated (sim/); Cl
                "(call/callback log) that is used only to name the finding key, never for the verdict",
                "a hang is judged after every held request was answered and 3 virtual seconds (plus the client timeout) passed",
                "pre-emption at blocking operations (enumeration, 'blocking' part) / at every lock operation ('locks' part)"]
-LEVEL_TEXT = ("exhaustive over <= 3 hosts x 8 situations x 2 release orders x 2 conviction policies for protocol 4 and "
-              "execute_async; sampled beyond that")
+LEVEL_TEXT = ("protocol 4, execute_async: exhaustive over <= 2 hosts x 8 situations x 2 release orders x 2 conviction "
+              "policies (quick: plus 3 hosts with the default conviction policy and reverse release order; thorough: 3 hosts "
+              "complete); sampled beyond that (4 hosts, protocol 2/3, blocking triggers, client timeout, schedules)")
 
 KS = "ks"
 USE_USER = "USE ks"            # what Session.set_keyspace('ks') sends
@@ -60,8 +61,15 @@ def s_case(gran):
 
 
 def enum_chunks(tier):
-    return [{"n": n, "convict": c, "first": f} for n in (1, 2, 3) for c in (True, False)
-            for f in (range(len(SITUATIONS)) if n == 3 else [None])]
+    """quick: <= 2 hosts complete, 3 hosts with the default conviction policy and reverse release order;
+    thorough: <= 3 hosts x both orders x both conviction policies"""
+    out = [{"n": n, "convict": c, "first": None, "orders": [[0], [5]]} for n in (1, 2) for c in (True, False)]
+    for f in range(len(SITUATIONS)):
+        if tier == "quick":
+            out.append({"n": 3, "convict": True, "first": f, "orders": [[5]]})
+        else:
+            out.extend({"n": 3, "convict": c, "first": f, "orders": [[0], [5]]} for c in (True, False))
+    return out
 
 
 def enum_cases(chunk):
@@ -69,7 +77,7 @@ def enum_cases(chunk):
     for combo in itertools.product(range(len(SITUATIONS)), repeat=n):
         if chunk["first"] is not None and combo[0] != chunk["first"]:
             continue
-        for order in ([0], [5]) if n > 1 else ([0],):
+        for order in (chunk["orders"] if n > 1 else [[0]]):
             yield {"pv": 4, "hosts": [list(SITUATIONS[i]) for i in combo], "convict": chunk["convict"],
                    "trigger": "execute_async", "timeout": None, "coord": 0, "t_before": 1.9,
                    "order": list(order) * 4, "tape": [], "gran": "blocking"}
@@ -267,8 +275,8 @@ def _history(case, ctx, sim, cluster, session, policy, addrs, script, stt, calls
         ctx.label("answered:" + ans)
     if not done():
         silent = [r for r in calls if r["switch"] and r["cb"] is None]
-        feats = sorted(set("shut-down" if r["shutdown"] else ("no-connection" if r["nconn"] == 0 else "has-connection")
-                           for r in silent)) or ["no-silent-pool"]
+        feats = ["shut-down" if r["shutdown"] else ("no-connection" if r["nconn"] == 0 else "has-connection")
+                 for r in silent][:1] or ["no-silent-pool"]
         ctx.fail(["C20.completes", pool_class] + feats,
                  "%s never completed although every USE was answered and %.1f virtual s passed; pools that never "
                  "called back: %r" % (trig, 3.0 + (case["timeout"] or 0.0), silent))
